@@ -196,7 +196,7 @@ def check(w):
                     continue
                 conc_rows.append({"id": o["id"] * 100 + cs["i"], "dir": fw["dir"], "mode": fw.get("mode", "daemon"), "events": fw["events"], "parse_err": fw.get("err", ""),
                                   "src": p_rsync.slim_nodes(o["src"]), "dst": p_rsync.slim_nodes([n for n in o["src"] if n["p"] == "."]), "final": p_rsync.slim_nodes(cs["final"]), "extra": [],
-                                  "result": "ok", "opts": OPTS_RLT, "rules": [], "judge": ["type", "content", "target"]})
+                                  "result": "ok", "opts": OPTS_RLT, "rules": [], "judge": ["type", "content", "target"], "ioerr": 0})
             traces.append({"id": o["id"], "kind": "conc", "hung": False, "result": "", "digest": "", "basedigest": "", "race": False, "solook": o["solook"], "results": o["results"], "equal": o["equal"],
                            "_err": o.get("diff", ""), "_scn": {k: o.get(k) for k in ("n", "kind", "same", "procs", "prior")}, "_mix": "conc"})
         else:
